@@ -29,7 +29,7 @@ import (
 )
 
 type vfC30Pkt struct {
-	SSRCKind int    `json:"ssrc_kind"` // 0 negotiated, 1 unknown, 2 zero
+	SSRCKind int    `json:"ssrc_kind"` // 0 negotiated, 1 unknown, 2 zero, 3 the negotiated stream's RTX SSRC, 4 its FEC SSRC
 	PT       uint8  `json:"pt"`
 	Seq      uint16 `json:"seq"`
 	TwoByte  bool   `json:"two_byte"`
@@ -48,6 +48,7 @@ type vfC30Case struct {
 	Local     int        `json:"local"`     // local media before the remote description: 0 none, 1 audio+video transceivers, 2 tracks
 	Lines     []string   `json:"lines"`     // SDP lines (joined with CRLF) or candidate strings
 	Pkts      []vfC30Pkt `json:"pkts,omitempty"`
+	Warm      int        `json:"warm,omitempty"` // rtp kind: well-formed packets on the negotiated stream sent first (track delivered and being read)
 }
 
 // ---------------------------------------------------------------- worker side
@@ -235,7 +236,14 @@ func vfC30ExecRTP(c vfC30Case) {
 	if err != nil {
 		return
 	}
-	negotiated := uint32(sender.GetParameters().Encodings[0].SSRC)
+	enc := sender.GetParameters().Encodings[0]
+	negotiated := uint32(enc.SSRC)
+	for i := 0; i < c.Warm; i++ {
+		_, _ = ws.WriteRTP(&rtp.Header{Version: 2, PayloadType: 96, SequenceNumber: uint16(100 + i), Timestamp: uint32(i) * 3000, SSRC: negotiated}, []byte{0x10, 0, 0, 0x9d, 0x01, 0x2a, 1, 2, 3, 4})
+	}
+	if c.Warm > 0 {
+		time.Sleep(20 * time.Millisecond)
+	}
 	for i, p := range c.Pkts {
 		if len(p.RTCP) > 0 {
 			_, _ = cws.Write(p.RTCP)
@@ -247,6 +255,10 @@ func vfC30ExecRTP(c vfC30Case) {
 			h.SSRC = negotiated
 		case 1:
 			h.SSRC = 0xDEAD0000 + uint32(p.Seq)
+		case 3:
+			h.SSRC = uint32(enc.RTX.SSRC)
+		case 4:
+			h.SSRC = uint32(enc.FEC.SSRC)
 		}
 		if len(p.Exts) > 0 {
 			h.Extension = true
@@ -860,7 +872,7 @@ func vfC30GenCand(v *vfT) vfC30Case {
 
 func vfC30GenRTP(v *vfT) vfC30Case {
 	t := v.R
-	c := vfC30Case{Kind: "rtp", Semantics: int(SDPSemanticsUnifiedPlan), Local: rapid.IntRange(0, 2).Draw(t, "local")}
+	c := vfC30Case{Kind: "rtp", Semantics: int(SDPSemanticsUnifiedPlan), Local: rapid.IntRange(0, 2).Draw(t, "local"), Warm: rapid.SampledFrom([]int{0, 0, 2, 3}).Draw(t, "warm")}
 	n := rapid.IntRange(1, 12).Draw(t, "n")
 	for i := 0; i < n; i++ {
 		var p vfC30Pkt
@@ -875,7 +887,7 @@ func vfC30GenRTP(v *vfT) vfC30Case {
 			c.Pkts = append(c.Pkts, p)
 			continue
 		}
-		p.SSRCKind = rapid.SampledFrom([]int{0, 1, 1, 1, 2}).Draw(t, "ssrc-kind")
+		p.SSRCKind = rapid.SampledFrom([]int{0, 1, 1, 1, 2, 3, 3, 4}).Draw(t, "ssrc-kind")
 		p.PT = rapid.SampledFrom([]uint8{96, 97, 96, 97, 111, 0, 127, 35, 72}).Draw(t, "pt")
 		p.Seq = rapid.Uint16().Draw(t, "seq")
 		p.TwoByte = rapid.Bool().Draw(t, "two-byte")
@@ -916,6 +928,10 @@ func vfC30GenRTP(v *vfT) vfC30Case {
 			}
 		}
 		p.Payload = rapid.SliceOfN(rapid.Byte(), 0, 60).Draw(t, "payload")
+		if rapid.IntRange(0, 3).Draw(t, "short") == 0 {
+			// header-only packets and payloads too short for what the payload type implies (RTX OSN, FEC header)
+			p.Payload = p.Payload[:min(len(p.Payload), rapid.IntRange(0, 3).Draw(t, "short-len"))]
+		}
 		if rapid.IntRange(0, 3).Draw(t, "pad") == 0 {
 			p.Padding = uint8(rapid.IntRange(1, 255).Draw(t, "padding"))
 		}
@@ -949,7 +965,7 @@ func vfC30GenLive(v *vfT) vfC30Case {
 }
 
 var vfC30Opts = vfOpts{
-	Rule: "hostile remote inputs executed in a worker subprocess: (sdp) line-level mutations (delete, duplicate, swap, truncate, hostile numbers, hostile attribute lines, drop-all-of-a-kind, unsupported codecs, oversize) of pion-generated and browser-style offers/answers under unified / plan-b / fallback semantics, applied as remote offer (then CreateAnswer + SetLocalDescription + queue drain) or as remote answer; (cand) mutated (and valid) candidate strings into AddICECandidate, also after the connection was closed; (rtp) hostile RTP/RTCP written through the sender's SRTP session to a connected peer; (live) a pair that really connects while its offer/answer text is edited in flight (codec renames, dropped attribute families, hostile lines), so the work queued behind ICE/DTLS start runs on a live connection; every case counts as non-trivial when it contains at least one mutation",
+	Rule:        "hostile remote inputs executed in a worker subprocess: (sdp) line-level mutations (delete, duplicate, swap, truncate, hostile numbers, hostile attribute lines, drop-all-of-a-kind, unsupported codecs, oversize) of pion-generated and browser-style offers/answers under unified / plan-b / fallback semantics, applied as remote offer (then CreateAnswer + SetLocalDescription + queue drain) or as remote answer; (cand) mutated (and valid) candidate strings into AddICECandidate, also after the connection was closed; (rtp) hostile RTP/RTCP written through the sender's SRTP session to a connected peer; (live) a pair that really connects while its offer/answer text is edited in flight (codec renames, dropped attribute families, hostile lines), so the work queued behind ICE/DTLS start runs on a live connection; every case counts as non-trivial when it contains at least one mutation",
 	Assumptions: []string{"crash = death of the worker process while the case is in flight (covers panics in background goroutines)", "a hang is reported only with the worker's dump of blocked pion goroutines"},
 }
 
